@@ -5,6 +5,6 @@ cd /repo
 for f in /verif/seeded/*/patch.diff /verif/selftest/mutants/*.diff /verif/selftest/refactors/*/patch.diff; do
   git apply --check "$f" 2>/dev/null && continue
   D=$(mktemp -d /tmp/sedreb.XXXXXX); git worktree add --detach "$D" HEAD >/dev/null 2>&1
-  ( cd "$D" && git apply -3 "$f" >/dev/null 2>&1; if git diff --name-only --diff-filter=U | grep -q .; then echo "CONFLICT $f"; else git diff HEAD -- sedfitter > "$f"; echo "rebased $f"; fi )
+  ( cd "$D" && git apply -3 "$f" >/dev/null 2>&1; if git diff --name-only --diff-filter=U | grep -q . || [ -z "$(git diff HEAD --name-only)" ]; then echo "CONFLICT $f"; else git diff HEAD -- sedfitter > "$f"; echo "rebased $f"; fi )
   git worktree remove --force "$D"
 done
